@@ -16,7 +16,7 @@ META = dict(
     text="for every exchange of the corpus the controller's A, M1 and K are compared byte-for-byte with a reference "
     "SRP-6a/3072/SHA-512 implementation (validated against RFC 5054 app. B), the reference accessory must accept M1, "
     "the controller must accept M2 and reject each of its 512 single-bit flips, and a controller with code i is rejected "
-    "by an accessory with code j != i; the corpus contains mined inputs whose A, B, S, K, M1, M2, u start with 0x00",
+    "by an accessory with code j != i; the corpus contains mined inputs whose A, B, S, K, M1, M2, u, x or inner credentials hash H(I:P) start with 0x00; every mined exchange is also run through the real pair-setup generators M1..M6 against the reference accessory (the byte-level *use* of K)",
     note="for-all over 2^128 secrets is not enumerable: coverage is the corpus (every boundary the code or the spec "
     "distinguishes); reference SRP and hashlib trusted; PAD convention as stated in the property anchors",
     design_ref="DESIGN.md §4 C02",
@@ -54,6 +54,7 @@ def case_exchange(p):
         lead = {
             "A": ex.A_pad[:1], "A00": ex.A_pad[:2], "B": ex.B_pad[:1], "S": G.pad(ex.S_client)[:1], "K": ex.K_client[:1],
             "M1": ex.M1_client[:1], "M2": ex.M2_server[:1], "u": G.H(ex.A_pad, ex.B_pad)[:1], "salt": salt[:1],
+            "HIP": G.H(f"{USER}:{code}".encode())[:1], "HIP00": G.H(f"{USER}:{code}".encode())[:2], "x": G.H(salt, G.H(f"{USER}:{code}".encode()))[:1],
         }[tgt]
         if any(lead):
             raise core.HarnessError(f"stale SRP corpus: {tgt} has no leading zero for {p}")
@@ -151,7 +152,20 @@ def case_constants(p):
     return out
 
 
-CASES = {"exchange": case_exchange, "wrongcode": case_wrongcode, "constants": case_constants}
+def case_protocol(p):
+    """The *use* of the SRP values in pair-setup (K into HKDF, proofs into M3/M4): one honest M1..M6 run of the real generators on a mined
+    exchange against the reference accessory (c03's case), in both decode styles; K, S, ... enter the protocol as bytes and an int round
+    trip anywhere between SrpClient and HKDF only shows for the leading-zero exchanges."""
+    from vt.props import c03
+
+    idx = [i for i, c in enumerate(c03.CONFIGS) if c.get("srp") and (c["srp"]["target"], c["srp"]["code"], c["srp"]["a"]) == (p["target"], p["code"], p["a"])]
+    if not idx:
+        raise core.HarnessError(f"mined exchange not among c03 configs: {p['target']} {p['code']}")
+    v = c03.case_setup({"cfg": idx[0], "style": p["style"], "fault": p.get("fault", "honest"), "arg": p.get("arg"), "seed": p.get("seed", 0)})
+    return [("protocol:" + sig, det) for sig, det in v]
+
+
+CASES = {"exchange": case_exchange, "wrongcode": case_wrongcode, "constants": case_constants, "protocol": case_protocol}
 
 
 def _work(item, seed, tier):
@@ -180,6 +194,11 @@ def run(ctx):
         if quick and per_target[m["target"]] > 1:
             continue
         work.append(("exchange", {"code": m["code"], "salt": bytes.fromhex(m["salt"]), "a": m["a"], "b": m["b"], "target": m["target"], "flips": True}))
+    for m in mined:
+        for style in ("ip", "ble"):
+            work.append(("protocol", {"target": m["target"], "code": m["code"], "a": m["a"], "style": style}))
+            if not quick:
+                work.append(("protocol", {"target": m["target"], "code": m["code"], "a": m["a"], "style": style, "fault": "m4-proof-bitflip", "arg": 7}))
     codes = ["000-00-000", "111-22-333", "999-99-999", "031-45-154"] + [
         f"{int.from_bytes(det_bytes(seed, f'code{i}', 4), 'big') % 10**8:08d}" for i in range(2 if quick else 8)
     ]
@@ -210,6 +229,7 @@ def run(ctx):
     ctx.pmap(_work, work)
     ctx.exhaustive = True
     ctx.bounds.update(codes=len(codes), salts=len(salts), a=len(a_vals), b=len(b_vals), mined_cases=sum(1 for w in work if w[1].get("target") not in (None, "salt")))
-    for t in ("A", "B", "S", "K", "M1", "M2", "u", "salt"):
+    ctx.require(ctx.acc.symbols["protocol"] >= 2 * len(mined), "protocol-level runs missing")
+    for t in ("A", "B", "S", "K", "M1", "M2", "u", "salt", "HIP", "HIP00", "x"):
         ctx.require(ctx.acc.symbols[f"lead0:{t}"] > 0, f"no directed leading-zero case for {t}")
     ctx.require(ctx.acc.symbols["flips"] >= 8, "too few proof-flip sweeps")
